@@ -151,6 +151,7 @@ type FnCtx struct {
 	callN    map[string]int
 	recFns   map[string]bool
 	curStmtPos token.Pos
+	siteN    map[string]int
 	boxed    map[types.Object]bool // locals whose address is taken: they live in the heap
 	recInfos map[string]*recInfo
 	recStack []*recInfo
@@ -639,6 +640,11 @@ func (c *FnCtx) memKey(elem types.Type) string {
 }
 
 func (c *FnCtx) readField(st *State, ptr string, structT types.Type, f *types.Var) Val {
+	if c.E.addrTaken[f.Origin()] {
+		// a field whose address is taken somewhere (&u.closed) lives in the flat memory of its
+		// type at its interior address, so that *(&p.f) and p.f are the same cell
+		return c.readMem(st, c.interiorAddr(ptr, structT, f), f.Type())
+	}
 	key := c.fieldKey(structT, f.Name())
 	arr := c.heapGet(st, key, "(Array Int "+c.sortOf(f.Type())+")", f.Type())
 	t := app("select", arr, ptr)
@@ -682,6 +688,10 @@ func (c *FnCtx) assumeInv(st *State, term string, t types.Type) {
 }
 
 func (c *FnCtx) writeField(st *State, ptr string, structT types.Type, f *types.Var, v string) {
+	if c.E.addrTaken[f.Origin()] {
+		c.writeMem(st, c.interiorAddr(ptr, structT, f), f.Type(), v)
+		return
+	}
 	key := c.fieldKey(structT, f.Name())
 	arr := c.heapGet(st, key, "(Array Int "+c.sortOf(f.Type())+")", f.Type())
 	c.heapSet(st, key, c.nameTerm("h", app("store", arr, ptr, v), "(Array Int "+c.sortOf(f.Type())+")"))
